@@ -7,6 +7,9 @@ import WS.Spec.Inflate
 import WS.Gen.IntFns
 import WS.Model.Writer
 import WS.Model.Handshake
+import WS.Model.NetConn
+import WS.Model.WsJson
+import WS.Model.Pool
 /-
   Command table of the driver.  Every command is a pure function String → String.
 -/
@@ -303,6 +306,64 @@ def cmdSrvResp (args : List String) : String :=
     | _, _, _, _, _ => "bad-args"
   | _ => "bad-args"
 
+/-- `netconn msgType msgs end ks`: msgs = `typ:hex,typ:hex` or "."; end = `close:<code>` | `err`; ks = sizes -/
+def cmdNetConn (args : List String) : String :=
+  match args with
+  | [mt, msgs, fin, ks] =>
+    let parseMsg (x : String) : Option Model.NetConn.Msg :=
+      match x.splitOn ":" with
+      | [t, d] => do
+        let t ← t.toNat?
+        let d ← ofHex d
+        some ⟨t, d⟩
+      | _ => none
+    let ms := if msgs == "." then some [] else (msgs.splitOn ",").mapM parseMsg
+    let fin' : Option Model.NetConn.End :=
+      if fin == "err" then some .otherErr
+      else match fin.splitOn ":" with
+        | ["close", c] => (parseInt? c).map .closeErr
+        | _ => none
+    let ks' := (ks.splitOn ",").mapM (·.toNat?)
+    match mt.toNat?, ms, fin', ks' with
+    | some mt, some ms, some fin', some ks' =>
+      let r := Model.NetConn.reads ks' (Model.NetConn.init mt ms fin')
+      let one : Model.NetConn.ReadRes → String
+        | .data b => "d:" ++ toHex b
+        | .eof => "eof"
+        | .err => "err"
+      s!"ok {String.intercalate "," (r.1.map one)} {b01 r.2.close1003}"
+    | _, _, _, _ => "bad-args"
+  | _ => "bad-args"
+
+/-- `json-rt hex`: parse the JSON text with the Lean codec and print it again -/
+def cmdJsonRt (args : List String) : String :=
+  match args with
+  | [h] =>
+    match strOfHex h with
+    | some txt =>
+      match Model.WsJson.decJ txt with
+      | some v => "ok " ++ hexOfStr (Model.WsJson.encJ v)
+      | none => "invalid"
+    | none => "bad-args"
+  | _ => "bad-args"
+
+/-- `pool-monitor g:c:o,p:c:o,u:c:o,...` → whether the Lean ownership monitor accepts the event log -/
+def cmdPoolMonitor (args : List String) : String :=
+  match args with
+  | [evs] =>
+    let parse (x : String) : Option Model.Pool.PEv :=
+      match x.splitOn ":" with
+      | [k, c, o] =>
+        match c.toNat?, o.toNat? with
+        | some c, some o =>
+          if k == "g" then some (.get c o) else if k == "p" then some (.put c o) else if k == "u" then some (.use c o) else none
+        | _, _ => none
+      | _ => none
+    match (if evs == "." then some [] else (evs.splitOn ",").mapM parse) with
+    | some l => if Model.Pool.monitor l (fun _ => none) then "ok accept" else "ok reject"
+    | none => "bad-args"
+  | _ => "bad-args"
+
 def handle (line : String) : String :=
   match line.splitOn " " with
   | [] => "bad-op"
@@ -327,6 +388,9 @@ def handle (line : String) : String :=
     | "sel-deflate" => cmdSelDeflate args
     | "srv-ext" => cmdSrvExt args
     | "srv-resp" => cmdSrvResp args
+    | "netconn" => cmdNetConn args
+    | "json-rt" => cmdJsonRt args
+    | "pool-monitor" => cmdPoolMonitor args
     | "ping" => "pong"
     | _ => "bad-op"
 
